@@ -148,7 +148,14 @@ def resolution_problems(doc, pickles):
     out = []
     idx = index_doc(doc)
     claimed = {}  # scenario id -> [(row position in document order, pickle index)]
+    doc_pos = {sid: n for n, sid in enumerate(idx)}  # scenarios in document order
+    last_pos = (-1, -1)
     for pi, p in enumerate(pickles):
+        r0 = p.get("astNodeIds")
+        if isinstance(r0, list) and r0 and r0[0] in doc_pos:
+            if doc_pos[r0[0]] < last_pos[0]:
+                out.append("pickle[%d] is made from scenario %r, which comes BEFORE the scenario of pickle[%d] in the document (pickles, and their ids, follow document order)" % (pi, r0[0], last_pos[1]))
+            last_pos = (max(last_pos[0], doc_pos[r0[0]]), pi if doc_pos[r0[0]] >= last_pos[0] else last_pos[1])
         where = "pickle[%d]" % pi
         refs = p.get("astNodeIds")
         if not isinstance(refs, list) or not refs:
